@@ -718,7 +718,16 @@ package keeper
 
 // ---------------------------------------------------------------- C14 (and C03, C20 wiring): message handlers
 
+//@ func equalStringSlices
+//@ loop 1 invariant [idx] 0 <= _i && _i <= len(a)
+//@ loop 1 invariant [prefix-equal] len(a) == len(b) && (forall j int :: 0 <= j && j < _i ==> a[j] == b[j])
+//@ ensures [def] result <==> (len(a) == len(b) && (forall j int :: 0 <= j && j < len(a) ==> a[j] == b[j]))
+
 //@ func Keeper.SetConsumerPowerShapingParameters
+//@ let oldp := old(k.GetConsumerPowerShapingParameters(ctx, consumerId))
+//@ ensures [allowlist-index-follows] result == nil && !equalStringSlices(oldp.0.Allowlist, parameters.Allowlist) ==> $UpdateAllowlist.called && $UpdateAllowlist.consumerId == consumerId && $UpdateAllowlist.allowlist == parameters.Allowlist
+//@ ensures [denylist-index-follows] result == nil && !equalStringSlices(oldp.0.Denylist, parameters.Denylist) ==> $UpdateDenylist.called && $UpdateDenylist.consumerId == consumerId && $UpdateDenylist.denylist == parameters.Denylist
+//@ ensures [prioritylist-index-follows] result == nil && !equalStringSlices(oldp.0.Prioritylist, parameters.Prioritylist) ==> $UpdatePrioritylist.called && $UpdatePrioritylist.consumerId == consumerId && $UpdatePrioritylist.prioritylist == parameters.Prioritylist
 //@ ensures [stored] result == nil ==> k.GetConsumerPowerShapingParameters(ctx, consumerId).1 == nil && k.GetConsumerPowerShapingParameters(ctx, consumerId).0 == parameters
 //@ ensures [no-deps] E == old(E) && X == old(X)
 
